@@ -32,6 +32,11 @@ type Case struct {
 	Sparse []sparse `json:"sparse,omitempty"` // compact form for 2-D / image inputs: position -> value, rest = Fill
 	Fill   uint32   `json:"fill,omitempty"`
 	Len    int      `json:"len,omitempty"`
+	// compact 2-D contents (expanded by vector()): a few distinct rows repeated, a smooth function, or seeded noise
+	Rows   [][]uint32 `json:"rows,omitempty"`
+	Smooth []float64  `json:"smooth,omitempty"` // a, b, d, phase
+	Noise  uint32     `json:"noise_seed,omitempty"`
+	N      int        `json:"n,omitempty"` // side length for the compact forms
 }
 
 type sparse struct {
@@ -44,6 +49,37 @@ func (c Case) vector() []float32 {
 		v := make([]float32, len(c.Bits))
 		for i, b := range c.Bits {
 			v[i] = math.Float32frombits(b)
+		}
+		return v
+	}
+	if len(c.Rows) > 0 {
+		n := len(c.Rows[0])
+		v := make([]float32, 0, n*n)
+		for r := 0; r < n; r++ {
+			for _, b := range c.Rows[(r*7)%len(c.Rows)] {
+				v = append(v, math.Float32frombits(b))
+			}
+		}
+		return v
+	}
+	if len(c.Smooth) == 4 && c.N > 0 {
+		n := c.N
+		a, b, d, ph := c.Smooth[0], c.Smooth[1], c.Smooth[2], c.Smooth[3]
+		v := make([]float32, n*n)
+		for i := range v {
+			x, y := float64(i%n), float64(i/n)
+			v[i] = float32(math.Floor(math.Mod(math.Abs(a+b*x+d*y+20*math.Sin(x/9+ph)*math.Cos(y/13)), 256)))
+		}
+		return v
+	}
+	if c.Noise != 0 && c.N > 0 {
+		v := make([]float32, c.N*c.N)
+		s := c.Noise | 1
+		for i := range v {
+			s ^= s << 13
+			s ^= s >> 17
+			s ^= s << 5
+			v[i] = float32(s % 65536)
 		}
 		return v
 	}
@@ -147,8 +183,7 @@ func accuracyApplies(sum, minAbs float64, finite bool) bool {
 
 const (
 	bound32      = 1e-5  // the property's bound, x ||x||_1
-	ceiling256   = 3e-5  // known finding: sparse inputs of the 256-point float32 kernels stay below this
-	sparseLimit  = 4     // ... where "sparse" means at most this many non-zero elements
+	ceiling256   = 3e-5  // known finding: the 256-point float32 kernels stay below this (worst observed 2.3e-5)
 	bound64      = 1e-12 // float64 kernels
 	asmAvailable = true
 )
@@ -221,11 +256,11 @@ func eval1D(c Case, n int, goK, asmK func([]float32)) *pbt.Fail {
 	noteRatio(c.Kernel, ratio)
 	if ratio > bound32 {
 		key := "acc:" + c.Kernel
-		if n == 256 && nnz <= sparseLimit && ratio <= ceiling256 {
-			key = "acc256-sparse" // the recorded finding: see known_findings.txt
+		if n == 256 && ratio <= ceiling256 {
+			key = "acc256-le-3e-5" // the recorded finding: see known_findings.txt
 		}
 		f := pbt.Failf(key, "%s: |kernel - DCT-II| = %.3g at coefficient %d = %.3g x ||x||_1 (bound 1e-5); %d non-zero inputs, class %s", c.Kernel, worst, at, ratio, nnz, c.Class)
-		if key != "acc256-sparse" || zeroSign == nil {
+		if key != "acc256-le-3e-5" || zeroSign == nil {
 			return f
 		}
 		// both recorded findings on one input: surface the accuracy one through the filter, then the zero sign
@@ -577,13 +612,9 @@ func genCase(rt *rapid.T) Case {
 		switch mode {
 		case "rows-of-vectors":
 			// a full image made of a handful of distinct generated rows
-			rows := make([][]uint32, rapid.IntRange(1, 4).Draw(rt, "nrows"))
-			for i := range rows {
-				rows[i], _ = genVector(rt, n)
-			}
-			c.Bits = make([]uint32, 0, n*n)
-			for r := 0; r < n; r++ {
-				c.Bits = append(c.Bits, rows[(r*7)%len(rows)]...)
+			c.Rows = make([][]uint32, rapid.IntRange(1, 4).Draw(rt, "nrows"))
+			for i := range c.Rows {
+				c.Rows[i], _ = genVector(rt, n)
 			}
 			c.Len = 0
 		case "sparse2d":
@@ -592,25 +623,11 @@ func genCase(rt *rapid.T) Case {
 				c.Sparse = append(c.Sparse, sparse{rapid.IntRange(0, n*n-1).Draw(rt, "at"), fb(float32(rapid.Float64Range(-70000, 70000).Draw(rt, "sv")))})
 			}
 		case "smooth":
-			a, b, d := rapid.Float64Range(0, 255).Draw(rt, "a"), rapid.Float64Range(-1, 1).Draw(rt, "b"), rapid.Float64Range(-1, 1).Draw(rt, "d")
-			ph := rapid.Float64Range(0, 6).Draw(rt, "ph")
-			c.Bits = make([]uint32, n*n)
-			for i := range c.Bits {
-				x, y := float64(i%n), float64(i/n)
-				c.Bits[i] = fb(float32(math.Floor(math.Mod(math.Abs(a+b*x+d*y+20*math.Sin(x/9+ph)*math.Cos(y/13)), 256))))
-			}
-			c.Len = 0
+			c.Smooth = []float64{rapid.Float64Range(0, 255).Draw(rt, "a"), rapid.Float64Range(-1, 1).Draw(rt, "b"), rapid.Float64Range(-1, 1).Draw(rt, "d"), rapid.Float64Range(0, 6).Draw(rt, "ph")}
+			c.N, c.Len = n, 0
 		default:
-			seed := rapid.Uint32().Draw(rt, "noiseSeed")
-			c.Bits = make([]uint32, n*n)
-			s := seed | 1
-			for i := range c.Bits {
-				s ^= s << 13
-				s ^= s >> 17
-				s ^= s << 5
-				c.Bits[i] = fb(float32(s % 65536))
-			}
-			c.Len = 0
+			c.Noise = rapid.Uint32().Draw(rt, "noiseSeed") | 1
+			c.N, c.Len = n, 0
 		}
 	}
 	var key uint64
@@ -619,8 +636,8 @@ func genCase(rt *rapid.T) Case {
 		key = ev.Hash([]byte(c.Kernel), hashBits(c.Bits), []byte{byte(c.Offset)})
 		nt = nontrivialVec(c.Bits)
 	} else {
-		key = ev.HashS(c.Kernel, fmt.Sprint(c.Sparse, c.Fill, c.Offset))
-		nt = len(c.Sparse) >= 2
+		key = ev.HashS(c.Kernel, fmt.Sprint(c.Sparse, c.Fill, c.Offset, c.Rows, c.Smooth, c.Noise, c.N))
+		nt = len(c.Sparse) >= 2 || len(c.Rows) > 0 || len(c.Smooth) > 0 || c.Noise != 0
 	}
 	rec.Case(nt, key, "kernel:"+c.Kernel, "class:"+c.Class, fmt.Sprintf("offset:%d", c.Offset))
 	if nt && (len(c.Bits) <= 64 || c.Bits == nil) {
